@@ -83,8 +83,9 @@ func (s *Scheduler) Clear() {
 }
 
 func uniqueJobKey(ctx vivid.ActorContext, reference string) *quartz.JobKey {
-	jobKey := ctx.Ref().GetPath() + ":" + reference
-	return quartz.NewJobKey(jobKey)
+	// 名称与分组分开比较（JobKey.Equals 同时比较 name 与 group）；拼接成 "path:reference" 时，
+	// 由于 ':' 在路径与引用中都合法，不同 Actor 的不同引用会得到相同的键（"/a"+"b:c" 与 "/a:b"+"c"）
+	return quartz.NewJobKeyWithGroup(reference, ctx.Ref().GetPath())
 }
 
 func schedulerErrorConvert(err error) error {
